@@ -229,6 +229,7 @@ type schedState struct {
 	finished chan interface{}
 	wg       sync.WaitGroup
 	once     map[*Value]*onceState
+	pools    map[*Value][]Value // sync.Pool free lists
 	wgs      map[*Value]*wgState
 	mus      map[*Value]*muState
 	sleep    map[transID]bool
@@ -236,7 +237,7 @@ type schedState struct {
 }
 
 func (e *Exec) initSched() {
-	e.ss = &schedState{finished: make(chan interface{}, 64), once: map[*Value]*onceState{}, sleep: map[transID]bool{}, race: newRaceState()}
+	e.ss = &schedState{finished: make(chan interface{}, 64), once: map[*Value]*onceState{}, pools: map[*Value][]Value{}, sleep: map[transID]bool{}, race: newRaceState()}
 }
 
 // runThreads runs body as thread 0 and returns what ended the path:
